@@ -3,6 +3,8 @@
 // Package hook gives the checks access to the verif-tagged hooks of the library.
 package hook
 
+import "github.com/go-openapi/validate"
+
 // Enabled tells whether the library was built with the verif tag.
 const Enabled = false
 
@@ -10,3 +12,6 @@ func ResetPools()                        {}
 func SetRedeemHook(h func(obj any) bool) {}
 func ResetRegexpCache()                  {}
 func RegexpCache() map[string]string     { return nil }
+
+// BorrowResult: without the hooks, a plain new Result.
+func BorrowResult() *validate.Result { return new(validate.Result) }
